@@ -491,7 +491,34 @@ int cg_is_cgns(const char *filename, int *file_type)
  *       will be true.
  *
  */
+static int cgi_open_body(const char *filename, int mode, int *fn, int *acquired);
+
 int cg_open(const char *filename, int mode, int *fn)
+{
+    int acquired = 0;
+
+    if (cgi_open_body(filename, mode, fn, &acquired) == CG_OK) return CG_OK;
+    if (acquired) {
+        /* the call fails after the cgio file was opened and an entry of
+           cgns_files was taken: release both, as cg_close would, and keep
+           the error message of the failure */
+        cgio_close_file(cg->cgio);
+        cgi_free_file(cg);
+        cg->mode = CG_MODE_CLOSED;
+        n_open--;
+        if (n_open == 0) {
+            file_number_offset = n_cgns_files;
+            free (cgns_files);
+            cg = NULL;
+            cgns_files = NULL;
+            cgns_file_size = 0;
+            n_cgns_files = 0;
+        }
+    }
+    return CG_ERROR;
+}
+
+static int cgi_open_body(const char *filename, int mode, int *fn, int *acquired)
 {
     int cgio, filetype;
     cgsize_t dim_vals;
@@ -538,6 +565,10 @@ int cg_open(const char *filename, int mode, int *fn)
     cg = &(cgns_files[n_cgns_files]);
     n_cgns_files++;
     (*fn) = n_cgns_files + file_number_offset;
+    memset(cg, 0, sizeof(cgns_file));
+    cg->mode = mode;
+    cg->cgio = cgio;
+    *acquired = 1;
 
     if (cgio_get_file_type(cgio, &filetype)) {
         cg_io_error("cgio_get_file_type");
